@@ -18,6 +18,7 @@ import (
 	"net/http"
 	"net/url"
 	"os"
+	"reflect"
 	"runtime"
 	"sort"
 	"strconv"
@@ -50,18 +51,19 @@ func goid() int64 {
 }
 
 type runState struct {
-	mu       sync.Mutex
-	h        *History
-	lines    []string
-	curN     int
-	fgOf     map[int64]int // goroutine -> exchange it performs in the foreground
-	bgOf     map[int64]int // goroutine -> exchange whose background work it performs
-	calls    map[int]int   // exchange -> number of origin calls so far
-	storeIdx map[string]int
-	pending  int // origin calls entered and not yet returned
-	dates    map[string]struct{}
-	inner    driver.Conn
-	dir      string
+	mu        sync.Mutex
+	h         *History
+	lines     []string
+	curN      int
+	fgOf      map[int64]int         // goroutine -> exchange it performs in the foreground
+	callerReq map[int]*http.Request // the request object the caller passed to RoundTrip, per exchange
+	bgOf      map[int64]int         // goroutine -> exchange whose background work it performs
+	calls     map[int]int           // exchange -> number of origin calls so far
+	storeIdx  map[string]int
+	pending   int // origin calls entered and not yet returned
+	dates     map[string]struct{}
+	inner     driver.Conn
+	dir       string
 }
 
 func (rs *runState) emit(format string, a ...any) {
@@ -198,6 +200,23 @@ func (o *origin) RoundTrip(req *http.Request) (*http.Response, error) {
 	t0 := time.Now().UnixNano()
 	method, urlStr, hdrs := req.Method, req.URL.String(), encHeader(req.Header)
 	_, hasDeadline := req.Context().Deadline()
+	if stream == "bg" {
+		// work that outlives RoundTrip must not use the caller's request, its header map or its URL:
+		// the caller may reuse them as soon as it has closed the response body
+		rs.mu.Lock()
+		caller := rs.callerReq[n]
+		rs.mu.Unlock()
+		if caller != nil {
+			switch {
+			case req == caller:
+				rs.emit("O\tSHARE\t%d\trequest", n)
+			case reflect.ValueOf(req.Header).Pointer() == reflect.ValueOf(caller.Header).Pointer() && req.Header != nil:
+				rs.emit("O\tSHARE\t%d\theader", n)
+			case req.URL == caller.URL:
+				rs.emit("O\tSHARE\t%d\turl", n)
+			}
+		}
+	}
 	done := func(outcome string) {
 		rs.mu.Lock()
 		rs.pending--
@@ -382,6 +401,9 @@ func (c *recConn) Get(key string) ([]byte, error) {
 		if err == nil {
 			k, _ := strconv.Atoi(f.Bytes)
 			if f.Kind == "trunc" {
+				if k < 0 {
+					k = max(len(b)+k, 0)
+				}
 				if k < len(b) {
 					b = b[:k]
 				}
@@ -406,6 +428,12 @@ func (c *recConn) Set(key string, value []byte) error {
 	if f != nil && f.Kind == "fail" {
 		err = errFault
 	} else {
+		if c.rs.h.Concurrent {
+			// a backend may take its time before it copies the bytes: whoever handed them over must
+			// leave them alone until Set returns (widens the window for a recycled buffer to show)
+			runtime.Gosched()
+			<-time.After(time.Microsecond)
+		}
 		err = c.rs.inner.Set(key, value)
 	}
 	c.rs.emit("O\tSTORE\t%d\t%s\t%d\tset\t%s\t%s\t%s", n, stream, idx, hx(key), errClass(err), c.rs.describeValue(value))
@@ -502,7 +530,7 @@ func urlGlue(u *url.URL) string {
 
 func runHistory(t *testing.T, h *History) (lines []string) {
 	registerDriver()
-	rs := &runState{h: h, fgOf: map[int64]int{}, bgOf: map[int64]int{}, calls: map[int]int{}, storeIdx: map[string]int{},
+	rs := &runState{h: h, callerReq: map[int]*http.Request{}, fgOf: map[int64]int{}, bgOf: map[int64]int{}, calls: map[int]int{}, storeIdx: map[string]int{},
 		dates: map[string]struct{}{}, curN: -1}
 	regMu.Lock()
 	regSeq++
@@ -628,6 +656,7 @@ func runHistory(t *testing.T, h *History) (lines []string) {
 			rs.mu.Lock()
 			rs.curN = n
 			rs.fgOf[g] = n
+			rs.callerReq[n] = req
 			rs.mu.Unlock()
 			t0 := time.Now().UnixNano()
 			var resp *http.Response
